@@ -1,6 +1,7 @@
 package props
 
 import (
+	"errors"
 	"context"
 	"fmt"
 	"math/rand"
@@ -39,11 +40,12 @@ type c01Case struct {
 	Pre       uint  // bit mask of pre-stored chain blocks
 	Strict    bool
 	Mount     FrontMode
+	CancelAt  int // >0: the caller's context is cancelled from the block hook when the n-th block is reported
 }
 
 func (k c01Case) String() string {
-	return fmt.Sprintf("head=%d queried=%v stop=%s@%d resync=%v ads=%d first=%d scoped=%d segsub=%d segscoped=%d pre=%09b strict=%v mount=%s",
-		k.HeadIdx, k.Queried, k.StopKind, k.StopIdx, k.Resync, k.AdsDepth, k.FirstSync, k.Scoped, k.SegSub, k.SegScoped, k.Pre, k.Strict, k.Mount)
+	return fmt.Sprintf("head=%d queried=%v stop=%s@%d resync=%v ads=%d first=%d scoped=%d segsub=%d segscoped=%d pre=%09b strict=%v mount=%s cancel-at-hook=%d",
+		k.HeadIdx, k.Queried, k.StopKind, k.StopIdx, k.Resync, k.AdsDepth, k.FirstSync, k.Scoped, k.SegSub, k.SegScoped, k.Pre, k.Strict, k.Mount, k.CancelAt)
 }
 
 // c01Expect is the reference model: indices of the chain blocks that must be
@@ -153,6 +155,10 @@ func c01Gen(r *rand.Rand) c01Case {
 	if k.Resync && k.FirstSync != 0 && (k.StopKind == "latest-set" || k.StopKind == "last-known") {
 		k.FirstSync = 0
 	}
+	// the caller gives up while block hooks run: the sync may fail, but if it reports success it must be exact
+	if r.Intn(8) == 0 {
+		k.CancelAt = 1 + r.Intn(k.HeadIdx+1)
+	}
 	return k
 }
 
@@ -261,7 +267,19 @@ func (e *c01Env) run(k c01Case) c01Outcome {
 		}
 	}
 	hl := &hookLog{}
-	opts := []dagsync.Option{dagsync.BlockHook(adPrevHook(dst, hl)), dagsync.StrictAdsSelector(k.Strict)}
+	ctx, cancelCtx := context.WithCancel(context.Background())
+	defer cancelCtx()
+	hook := adPrevHook(dst, hl)
+	if k.CancelAt > 0 {
+		inner, nth := hook, 0
+		hook = func(p peer.ID, c cid.Cid, act dagsync.SegmentSyncActions) {
+			inner(p, c, act)
+			if nth++; nth == k.CancelAt {
+				cancelCtx()
+			}
+		}
+	}
+	opts := []dagsync.Option{dagsync.BlockHook(hook), dagsync.StrictAdsSelector(k.Strict)}
 	if k.AdsDepth != 0 {
 		opts = append(opts, dagsync.AdsDepthLimit(k.AdsDepth))
 	}
@@ -309,7 +327,7 @@ func (e *c01Env) run(k c01Case) c01Outcome {
 	if k.SegScoped != 0 {
 		so = append(so, dagsync.ScopedSegmentDepthLimit(k.SegScoped))
 	}
-	out.ret, out.err = s.SyncAdChain(context.Background(), front.AddrInfo(), so...)
+	out.ret, out.err = s.SyncAdChain(ctx, front.AddrInfo(), so...)
 	out.hooks = idxList(e.chain, hl.list())
 	for _, q := range BlockRequests(front.Log()) {
 		if q == "head" {
@@ -376,8 +394,15 @@ func c01Ads(c *vf.Ctx) {
 			o = env.run(k)
 			// twin: same call, segmentation disabled, nothing pre-stored
 			k2 := k
-			k2.SegSub, k2.SegScoped, k2.Pre = 0, 0, 0
+			k2.SegSub, k2.SegScoped, k2.Pre, k2.CancelAt = 0, 0, 0, 0
 			twin = env.run(k2)
+			if o.err != nil && k.CancelAt > 0 && errors.Is(o.err, context.Canceled) {
+				c.Inc("syncs_failed_by_cancellation_from_the_hook") // nothing is claimed about a failed sync here (C04 does)
+				return
+			}
+			if k.CancelAt > 0 {
+				c.Inc("syncs_successful_although_cancelled_from_the_hook")
+			}
 			if o.err != nil {
 				c.Fail(sub, i, "sync-failed", o.err.Error(), wit())
 				return
